@@ -32,7 +32,9 @@ HOSTILE = ["'", "''", "x' OR 1=1 --", "--", "/*", "*/", ";", "\\", "\\'", "\x00"
            "'; DROP TABLE t; --", "\"", "x\"y", "\n", "é", "", "a", "%'", "_' OR '1'='1", "\\%", "''''",
            # contents that BEGIN like a literal of another kind (a translator that re-types or pattern-matches string contents must not let the rest out)
            "2020-01-01' OR 1=1 --", "2020-01-01", "12:00:00' --", "2020-01-01T10:00:00Z' OR '1'='1", "01234567-89ab-cdef-0123-456789abcdef' --",
-           "P1D' OR 1=1 --", "1' OR '1'='1", "1.5e3'--", "true' OR 1=1 --", "null' --", "-1) OR (1=1"]
+           "P1D' OR 1=1 --", "1' OR '1'='1", "1.5e3'--", "true' OR 1=1 --", "null' --", "-1) OR (1=1",
+           # contents that look like the placeholders of a template / parameter style (a second substitution pass must not find them)
+           "$1", "$2", "$3 $2 $1", "{0}", "{1}{0}", "{}", "%s", "%(a)s", "\\1", "\\g<1>", ":param_1", "?", "@p1", "${x}", "#{x}"]
 
 I = gens_typed.I
 call = gens_typed.call
@@ -63,6 +65,10 @@ def string_positions(s):
         ast.Compare(ast.Eq(), I("s1"), ast.Null()) if False else ast.Compare(ast.Eq(), call("length", call("concat", L, I("s1"))), ast.Integer("1")),
         call("hassubset", I("c1"), ast.List([L, S("b")])), call("hassubset", ast.List([L]), I("c1")),
         ast.Compare(ast.Eq(), call("length", ast.List([L, L])), ast.Integer("2")),
+        # two string literals in one call, the hostile one first / second / both (templates filled argument by argument)
+        ast.Compare(ast.Ge(), call("indexof", L, S(", 1) >= 0 OR 1=1 --")), ast.Integer("0")) if hasattr(ast, "Ge") else ast.Compare(ast.GtE(), call("indexof", L, S(", 1) >= 0 OR 1=1 --")), ast.Integer("0")),
+        ast.Compare(ast.Eq(), call("substring", L, ast.Integer("1"), ast.Integer("2")), S("$1")), ast.Compare(ast.Eq(), call("indexof", call("concat", L, I("s1")), S("$1 $2")), ast.Integer("0")),
+        ast.Compare(ast.Eq(), call("concat", S("$2"), L), S("$1")), call("contains", call("tolower", L), S("$2")),
         # opposite an operand of ANOTHER kind (accepted by the parser; a backend may refuse, or coerce — the content must stay inside one literal)
         ast.Compare(ast.Eq(), call("date", I("dt1")), L), ast.Compare(ast.GtE(), L, call("date", I("dt1"))), ast.Compare(ast.Eq(), I("d1"), L),
         ast.Compare(ast.In(), call("date", I("dt1")), ast.List([L, S("x")])), ast.Compare(ast.In(), I("d1"), ast.List([ast.Date("2020-01-01"), L])),
